@@ -9,6 +9,8 @@
 //!   * reading rfc(d) through any reader schedule (Interrupted calls included) and any buffer sizes gives d, then end of input
 //!   * text with length % 4 != 0 ends in an error, never in a clean end of input
 //!   * no input panics
+//!   * the same through the crate's client of the decoder (`Deserialize for Image`): documents whose data text has a
+//!     length that is not a multiple of four are rejected, well-formed ones give the pixels the raw bytes spell
 //! `O` lines: the verified Lean specification `rfcEncode` applied to the data must give the implementation's text.
 use serde_json::{Value, json};
 use std::collections::HashSet;
@@ -475,6 +477,78 @@ impl Ctx {
         }
     }
 
+    /// The client of the decoder inside the crate: `Deserialize for Image` (src/image.rs) runs the `data` text of a
+    /// document through `Base64Decoder` + `read_to_end`. Judged from the RAW pieces: a text whose length is not a
+    /// multiple of four must make the document fail; the RFC text of `h*w*channels` bytes must give exactly the
+    /// pixels those bytes spell (built here, not with the crate's helpers).
+    fn image_case(&mut self, kind: &str, h: usize, w: usize, channels: usize, text: &[u8], plain: Option<&[u8]>, variant: u64) {
+        use surf_n_term::Surface;
+        let text_s = String::from_utf8_lossy(text).to_string();
+        // the three fields in different orders, as a parsed value or as a document string
+        let doc = match variant % 3 {
+            0 => format!("{{\"size\":[{h},{w}],\"channels\":{channels},\"data\":{}}}", serde_json::to_string(&text_s).unwrap()),
+            1 => format!("{{\"data\":{},\"size\":[{h},{w}],\"channels\":{channels}}}", serde_json::to_string(&text_s).unwrap()),
+            _ => format!("{{\"channels\":{channels},\"data\":{},\"ignored\":[1,2],\"size\":[{h},{w}]}}", serde_json::to_string(&text_s).unwrap()),
+        };
+        let r = guarded(|| -> Result<(usize, usize, Vec<u8>), String> {
+            let img: surf_n_term::Image = if variant % 2 == 0 {
+                serde_json::from_str(&doc).map_err(|e| e.to_string())?
+            } else {
+                let v: Value = serde_json::from_str(&doc).map_err(|e| e.to_string())?;
+                serde_json::from_value(v).map_err(|e| e.to_string())?
+            };
+            let mut px = Vec::new();
+            for c in img.data() {
+                px.extend([c.red(), c.green(), c.blue(), c.alpha()]);
+            }
+            Ok((img.height(), img.width(), px))
+        });
+        let got_s = match &r {
+            Err(()) => "panic".to_string(),
+            Ok(Err(_)) => "reject".to_string(),
+            Ok(Ok((_, _, px))) => format!("ok {}", hex(px)),
+        };
+        let req = format!("c14 image {h} {w} {channels} {}", hex(text));
+        self.out.case(&req, !text.is_empty());
+        self.out.hist(&format!("image:{kind}"));
+        self.out.hist(&format!("image:{}", got_s.split(' ').next().unwrap_or("")));
+        if self.seen.insert(req.clone()) {
+            self.out.corr(&req, &got_s);
+        }
+        let input = json!({"op": "image", "h": h, "w": w, "channels": channels, "text": hex(text), "plain": plain.map(hex), "variant": variant});
+        if matches!(r, Err(())) {
+            self.out.fail("Image deserialisation panics on a base64 data text", input, json!("no panic"), json!("panic"));
+        } else if text.len() % 4 != 0 {
+            if !matches!(r, Ok(Err(_))) {
+                self.out.fail(
+                    "an image document whose data text has a length that is not a multiple of four is accepted (the text is silently truncated)",
+                    input,
+                    json!("reject"),
+                    json!(got_s.chars().take(200).collect::<String>()),
+                );
+            }
+        } else if let Some(d) = plain {
+            if d.len() == h * w * channels {
+                let mut want = Vec::new();
+                for p in d.chunks(channels) {
+                    match channels {
+                        1 => want.extend([p[0], p[0], p[0], 255]),
+                        3 => want.extend([p[0], p[1], p[2], 255]),
+                        _ => want.extend([p[0], p[1], p[2], p[3]]),
+                    }
+                }
+                if r != Ok(Ok((h, w, want.clone()))) {
+                    self.out.fail(
+                        "an image document with the RFC 4648 text of its pixels is not read back as these pixels",
+                        input,
+                        json!(format!("ok {}", hex(&want)).chars().take(200).collect::<String>()),
+                        json!(got_s.chars().take(200).collect::<String>()),
+                    );
+                }
+            }
+        }
+    }
+
     /// Out of the property's scope, exercised for the record (level_note): the underlying reader fails ONCE with a
     /// transient error other than `Interrupted` (`WouldBlock`) and then goes on. `buffer_fill` returns the error
     /// to the caller and forgets the 1-3 bytes of the group it had already taken from the reader, so a caller
@@ -810,6 +884,11 @@ fn replay(ctx: &mut Ctx, input: &Value) {
             };
             ctx.enc_sink_case("replay", &spec, &ops);
         }
+        Some("image") => {
+            let g = |k: &str| input[k].as_u64().unwrap_or(0) as usize;
+            let plain = input["plain"].as_str().map(unhex);
+            ctx.image_case("replay", g("h"), g("w"), g("channels"), &unhex(input["text"].as_str().unwrap_or("-")), plain.as_deref(), input["variant"].as_u64().unwrap_or(0));
+        }
         Some("wouldblock") => {
             let g = |k: &str| input[k].as_u64().unwrap_or(1) as usize;
             ctx.wouldblock_case(&unhex(input["data"].as_str().unwrap_or("-")), g("per_call"), g("fail_at"), g("size").max(1));
@@ -818,7 +897,7 @@ fn replay(ctx: &mut Ctx, input: &Value) {
     }
 }
 
-const RULE: &str = "encoder: every length 0..=L (L = 200 quick / 400 thorough) of random bytes plus all-sextet / all-byte covering data, each in the partitions whole, 1, 2, 4 and random cuts (empty chunks included), with and without flush() calls (after every write, at random points), each over a Vec and over inner writers with short writes {1, 2, 3, 4, 5 bytes per call for ever, random 1..5, random with Interrupted, a writer that becomes full} - judged on the text that ARRIVED in the writer; decoder round trip: RFC text of the same data x reader schedules {unrestricted, 1, 2, 3, 4, 5, 7, 64 per call for ever, random 1..5 per call, random with Interrupted} x destinations {read sizes 1, 2, 3, 63, 64, 65, 4096, random mix incl. 0; read_to_end; read_to_string on UTF-8 data} (every read call std makes is recorded and compared) (full product up to length 400, two data per white-box length 0-4, 46-50, 62-67, 83-86, 93-97, 125-128, 189-192; a rotating quarter of the product for the long random data of the thorough tier); malformed: random bytes, alphabet-only text of every length mod 4, stray padding, damaged valid text, padded groups in mid-stream (reaches buffer sizes 61, 62, 64); transient WouldBlock of the reader: no panic, error not swallowed (no correspondence; out of the property's scope); non-trivial = non-empty data/text; distinct by request line";
+const RULE: &str = "encoder: every length 0..=L (L = 200 quick / 400 thorough) of random bytes plus all-sextet / all-byte covering data, each in the partitions whole, 1, 2, 4 and random cuts (empty chunks included), with and without flush() calls (after every write, at random points), each over a Vec and over inner writers with short writes {1, 2, 3, 4, 5 bytes per call for ever, random 1..5, random with Interrupted, a writer that becomes full} - judged on the text that ARRIVED in the writer; decoder round trip: RFC text of the same data x reader schedules {unrestricted, 1, 2, 3, 4, 5, 7, 64 per call for ever, random 1..5 per call, random with Interrupted} x destinations {read sizes 1, 2, 3, 63, 64, 65, 4096, random mix incl. 0; read_to_end; read_to_string on UTF-8 data} (every read call std makes is recorded and compared) (full product up to length 400, two data per white-box length 0-4, 46-50, 62-67, 83-86, 93-97, 125-128, 189-192; a rotating quarter of the product for the long random data of the thorough tier); malformed: random bytes, alphabet-only text of every length mod 4, stray padding, damaged valid text, padded groups in mid-stream (reaches buffer sizes 61, 62, 64); client path: image documents (serde_json, three field orders, from_str / from_value) whose data text has k whole groups for every k in 0..=130 (400 thorough) + 1..3 stray symbols with size fields matching the whole groups (must be rejected), the well-formed ones (pixels compared with the raw bytes), wrong sizes, cut texts; transient WouldBlock of the reader: no panic, error not swallowed (no correspondence; out of the property's scope); non-trivial = non-empty data/text; distinct by request line";
 
 fn main() {
     let cfg = Cfg::from_env();
@@ -917,6 +996,42 @@ fn main() {
         }
         ctx.dec_case(kind, &text, None, &sched, &pat);
     }
+    // the crate's client of the decoder: image documents. k whole groups (every k up to K: the decoder refills
+    // 21 groups at a time, so every multiple of 21 and its neighbours are there) + r stray symbols, size fields
+    // matching the whole groups; and the well-formed documents
+    let kmax = if cfg.thorough { 400 } else { 130 };
+    let alpha = rfc_alphabet();
+    for k in 0..=kmax {
+        for channels in [1usize, 3, 4] {
+            // payload of exactly k whole groups for this channel count where possible, else padded
+            let n = if channels == 4 { 3 * k / 4 * 4 } else { 3 * k };
+            let data = random_bytes(&mut rng, n);
+            let text = rfc_encode(&data);
+            let (h, w) = if rng.chance(1, 2) { (1, n / channels) } else { (n / channels, 1) };
+            ctx.image_case("wellformed", h, w, channels, &text, Some(&data), rng.next());
+            if channels != 4 || 3 * k % 4 == 0 || rng.chance(1, 4) {
+                for r in 1..=3usize {
+                    let mut t = text.clone();
+                    for _ in 0..r {
+                        t.push(*rng.pick(&alpha));
+                    }
+                    ctx.image_case(&format!("stray{r}"), h, w, channels, &t, None, rng.next());
+                }
+            }
+        }
+        // a payload that ends in a padded group, then stray symbols; wrong size fields; a cut text
+        let n = 3 * k + 1 + rng.below(2) as usize;
+        let data = random_bytes(&mut rng, n);
+        let mut t = rfc_encode(&data);
+        ctx.image_case("wrong-size", 1, n + 1, 1, &t, Some(&data), rng.next());
+        let cut = 1 + rng.below(3) as usize;
+        let mut c = t.clone();
+        c.truncate(c.len() - cut);
+        ctx.image_case("cut", 1, n, 1, &c, None, rng.next());
+        t.push(*rng.pick(&alpha));
+        ctx.image_case("stray-after-pad", 1, n, 1, &t, None, rng.next());
+    }
+
     // transient reader error (out of scope, see `wouldblock_case`)
     let n_wb = if cfg.thorough { 20_000 } else { 1_500 };
     for _ in 0..n_wb {
